@@ -92,7 +92,7 @@ class Contract:
                  self_type=None, ghost=None, fresh_result=False, notes='',
                  total=True, locals=None, may_raise_other=False, decreases=None,
                  asserts=(), frame_carries=None, escape_carries=None, hints=(), inst=(),
-                 static_ensures=(), any_kwargs=False):
+                 static_ensures=(), any_kwargs=False, inline_calls=()):
         self.qualname = qualname
         self.params = dict(params or {})
         self.returns = returns
@@ -115,6 +115,7 @@ class Contract:
         self.hints = list(hints)     # expressions evaluated at every exit (unfolding triggers)
         self.inst = list(inst)       # extra terms at which quantified assumptions are instantiated
         self.frame_carries = frame_carries
+        self.inline_calls = tuple(inline_calls)   # callees executed from their real body inside THIS function only
         self.any_kwargs = any_kwargs       # (assumed externals such as functools.partial) accepts any keyword
         self.escape_carries = escape_carries
 
